@@ -97,10 +97,24 @@ def run(ctx):
         "letter (n in {0,1,2,middle,last} of a faithful run's count; that one only, or all from it on): the request delivered from another source "
         "port (in-command BADIP), all sessions forgotten by the server, time-out, no records, SERVFAIL, NXDOMAIN, error records, the payload cut "
         "after 1-12 bytes/half/all but 1-2, another command's letter, case folding, a flipped byte, doubled, the previous answer, the answer to "
-        "another command; a handshake that completes writes once and closes. Oracle: no panic. A case is distinct by (wire bytes, origin | entry point, codec, domain); "
+        "another command; a handshake that completes writes once and closes. Oracle: no panic. "
+        "REQUEST HANDLER (side 'handler'): the listener is registered on the repository's own NetConnectionServerCommunicator and every message "
+        "- the victim's and the hostile peer's own traffic included - enters through its handleRequest, the function miekg/dns calls without "
+        "recover, with a dns.ResponseWriter that behaves like miekg's for a server without TSIG secrets (TsigStatus nil, WriteMsg = Pack + "
+        "write, failing when the answer cannot be packed); only what DefaultMsgAcceptFunc accepts is delivered. Queries: every way the "
+        "callback can end (names that are no command; all command letters in both cases x {no body, 1-5 characters, header, header + user "
+        "id, well-formed / truncated / mutated bodies, bodies in each codec, 8-bit garbage, maximum length} x user-id field {victim's, "
+        "sender's, zz, unused, non-base36, negative, upper case, 8-bit, dotted, 00}; tunnel query types and NS/SOA/ANY/... that yield an "
+        "error together with a message) x what the query carries besides its question (nothing; OPT; OPT with options; TSIG with hmac-md5/"
+        "sha1/sha256/sha512/unknown algorithm, key names 'axfr.', root, 180 characters, 8-bit, MAC of 0-64 bytes, BADTIME with other data; "
+        "OPT+TSIG, TXT+TSIG, TSIG+OPT, two TSIGs; SIG(0), OPT+SIG(0); a SOA in the answer section of a NOTIFY or in the authority section, "
+        "each with and without TSIG; answer + authority + OPT + TSIG) plus random sentences of the grammar in random envelopes; same per-"
+        "message oracle as SERVER (panic, TotalAlloc, watchdog, victim state identical, victim's in-flight transfer completes every 128 "
+        "messages). A case is distinct by (wire bytes, origin | entry point, codec, domain); "
         "every executed case ran its whole oracle.",
-        ["the handler is entered the way handleRequest enters it (registered callback, message after Unpack); the UDP/TCP socket layer of "
-         "miekg/dns is not part of the run (C01 drives it)",
+        ["SERVER items enter the listener the way handleRequest enters it (registered callback, message after Unpack); the HANDLER items "
+         "enter handleRequest itself with a scripted ResponseWriter; the UDP/TCP socket layer of miekg/dns is not part of the run (C01 drives it)",
+         "a ResponseWriter whose TsigStatus() is not nil does not occur (socketace configures no TSIG secrets, miekg then reports nil for every message) and is not scripted",
          "answers that Msg.Unpack rejects (compression loops, A/AAAA RDATA of the wrong size) never reach socketace and are counted, not judged",
          "a success answer to a name outside the tunnel domain is recorded as evidence, not judged (the statement's 'tunnel error or ignored' "
          "is read as the handling of what is not a well-formed command)",
